@@ -254,6 +254,15 @@ def oracle(case, ctx):
         ("are_columns_nested(mixed)", sut(lambda: [bool(v) for v in dp.are_columns_nested(mixed)]), [True] * c + [False]),
         ("are_columns_nested(flat)", sut(lambda: [bool(v) for v in dp.are_columns_nested(flat)]), [False] * t),
     ]
+    # cells that hold other Python containers (a tuple, a list, a string) are not series-valued
+    other = pd.DataFrame({"span": [(i, i + 2) for i in range(n)], "tags": [["a", "b"][: 1 + i % 2] for i in range(n)], "name": ["s%d" % i for i in range(n)]})
+    checks += [
+        ("is_nested(tuple / list / string cells)", sut(dp.is_nested_dataframe, other), False),
+        ("are_columns_nested(tuple / list / string cells)", sut(lambda: [bool(v) for v in dp.are_columns_nested(other)]), [False, False, False]),
+    ]
+    r = sut(check_X, other)
+    if not (isinstance(r, Raised) and r.is_a(ValueError)):
+        discs.append(D("check_X_accepts_frame_without_series_cells", repr(r)[:200]))
     if n >= 2:
         # series-valued cells anywhere: a primitive placeholder in the first / last row of one
         # column or of every column does not make the frame (or that column) flat
